@@ -1,6 +1,6 @@
 From Coq Require Import ZArith List Bool Lia.
 From Arsenal Require Import Util.
-From Arsenal Require VamDev VamBlockList Vam VamInv VamInvThm VamAcctThm VamMap VamMapThm VamDefrag VamDefragThm VamDefragAcct VamDefragMap VamBal VamBalThm VamDefragBal.
+From Arsenal Require VamDev VamBlockList Vam VamInv VamInvThm VamAcctThm VamMap VamMapThm VamDefrag VamDefragThm VamDefragAcct VamDefragMap VamBal VamBalThm VamDefragBal VamPointer.
 From Arsenal Require Import SyncMem SyncMemProofs.
 Import ListNotations.
 Open Scope Z_scope.
@@ -122,4 +122,31 @@ Theorem C14_allocator_failed_map_keeps_balance : forall c v G s f v' code calls,
   VamBal.BInv v' G nil.
 Proof. intros c v G s f v' code calls Ha. exact (VamBalThm.failed_map_keeps_balance c Ha v G s f v' code calls). Qed.
 Print Assumptions C14_allocator_failed_map_keeps_balance.
+(* What the pointer returned by Map is computed from: map_target v a = (memory object, FindOffset).  While a
+   user holds a Map or the allocation is persistently mapped, in every state of every history (with
+   defragmentation too, hence ALSO AFTER RELOCATION) that pair names a live, mapped memory object of the
+   allocation's type and the allocation's own bytes: the range [offset, offset+size) lies inside the object, is
+   aligned as placed (a dedicated allocation covers its whole object from 0) and is disjoint from every other
+   allocated object in the same memory.  A successful Map does not move the allocation and its only possible
+   driver call is vkMapMemory(memory, 0, WHOLE_SIZE).  The pointer VALUE itself (mapped base + offset) has no
+   counterpart in the model; vamh checks it with byte patterns through the real pointers. *)
+Theorem C14_allocator_pointer_target_valid : forall c v G s a,
+  cfg_acct c -> VamBalThm.reachB c v G -> slot_is v s a -> (1 <= G s \/ a_persist a = true) -> VamPointer.target_ok v s a.
+Proof. intros c v G s a Ha. exact (VamPointer.pointer_target_valid c Ha v G s a). Qed.
+Print Assumptions C14_allocator_pointer_target_valid.
+
+Theorem C14_allocator_pointer_target_valid_defrag : forall c v run G s a,
+  cfg_acct c -> VamDefragBal.reachDB c v run G -> slot_is v s a -> (1 <= G s \/ a_persist a = true) -> VamPointer.target_ok v s a.
+Proof. intros c v run G s a Ha. exact (VamPointer.pointer_target_valid_defrag c Ha v run G s a). Qed.
+Print Assumptions C14_allocator_pointer_target_valid_defrag.
+
+Theorem C14_allocator_map_ok_target : forall c v G s f v' calls,
+  cfg_acct c -> VamBalThm.reachB c v G -> op_ok v (OMap s) -> step c v (OMap s) f = (v', ROk, calls) ->
+  let a := get_alloc v s in
+  slot_is v s a /\ a_mapallowed a = true /\
+  (calls = nil \/ exists code, calls = (CMap (a_mem a) 0 (-1) code :: nil)%list) /\
+  exists a', slot_is v' s a' /\ a_mem a' = a_mem a /\ a_size a' = a_size a /\
+             VamPointer.map_target v' a' = VamPointer.map_target v a /\ VamPointer.target_ok v' s a'.
+Proof. intros c v G s f v' calls Ha. exact (VamPointer.map_ok_target c Ha v G s f v' calls). Qed.
+Print Assumptions C14_allocator_map_ok_target.
 End Allocator.
